@@ -169,6 +169,32 @@ def box_contact_is_sat_gap(A, B, dist, n, pos, sat_sep, tol_len, tol_dir=1e-6):
     return dist >= gap and abs(A.sd_point(pos - n * dist / 2)) <= tol_len and abs(B.sd_point(pos + n * dist / 2)) <= tol_len
 
 
+def box_face_axis_preferred(A, B, dist, n, pos, tol_len, tol_dir=1e-6):
+    """mjc_BoxBox's face substitution (engine_collision_box.c: `if (face_dot > 0.99 && sep_best < sep_face + 0.05*|sep_face| +
+    mjMINVAL) code = code_face`): the best of the 15 axes is an edge-cross axis, but a FACE axis within ~8 degrees of it whose gap is
+    within 5 % of the best gap is reported instead.  True iff: the contact normal n is one of the 6 face axes; the largest gap over
+    the 15 axes belongs to an edge-cross axis e with |<e,n>| > 0.99; gap(n) < gap(e) < gap(n) + 0.05*|gap(n)| + mjMINVAL; and the
+    contact distance is measured along n: the gap itself or the surface-to-surface distance along n at the contact point.
+    returns (ok, gap along n, largest gap)"""
+    N = box_sat_axes(A, B)
+    faces = N[:6]
+    if float(np.abs(faces @ n).max()) < 1 - tol_dir:
+        return False, None, None
+    NN = np.concatenate([N, -N])
+    gaps = -(A.h_many(NN) + B.h_many(-NN))
+    i = int(np.argmax(gaps))
+    best, e = float(gaps[i]), NN[i]
+    if i % len(N) < 6:                       # the best axis is itself a face axis: no substitution
+        return False, None, best
+    gap = -(A.h(n) + B.h(-n))
+    if not (abs(float(e @ n)) > 0.99 and gap < best - tol_len and best < gap + 0.05 * abs(gap) + MINVAL):
+        return False, gap, best
+    if abs(gap - dist) <= tol_len:
+        return True, gap, best
+    ok = dist >= gap and abs(A.sd_point(pos - n * dist / 2)) <= tol_len and abs(B.sd_point(pos + n * dist / 2)) <= tol_len
+    return ok, gap, best
+
+
 # ---- mju_makeFrame fallback ------------------------------------------------------------------------------------------------
 def frame_is_x_fallback(F, normal, tol=1e-12):
     """rows of F: normal (unit, = plane normal), exactly (1,0,0) (mju_normalize3's substitute for a vanished tangent), and
